@@ -26,7 +26,8 @@ Spec == Init /\ [][Next]_vars
 Identity(a) == a.inplace <=> a.same
 FlagSound(a) == ~a.modified => ~a.changed
 Fixpoint(a) == \E x \in DOMAIN a.rounds : x <= a.size + 1 /\ ~a.rounds[x].modified /\ ~a.rounds[x].changed
-NoDamage(a) == a.invariantsOK /\ (a.sortedBefore => a.sortedAfter) /\ a.namesOK
+\* (reloadOK: the names the result is serialized under can be read back - no value defined twice in a scope, ...)
+NoDamage(a) == a.invariantsOK /\ (a.sortedBefore => a.sortedAfter) /\ a.namesOK /\ a.reloadOK
 AnalysisOnly(a) == a.analysis => ~a.changed
 \* functionalize(pass): whatever the wrapped pass is (in place, destructive, a sequence that starts with a
 \* side-effect-only pass, a pass manager), the caller's model serializes as before and the result is another object.
